@@ -1161,7 +1161,9 @@ func compileLabelStmt(context *funcContext, stmt *ast.LabelStmt, isLastStmt bool
 } // }}}
 
 func compileGotoStmt(context *funcContext, stmt *ast.GotoStmt) { // {{{
-	context.Code.AddABC(OP_CLOSE, 0, 0, 0, sline(stmt))
+	// closes nothing unless label resolution lowers A to the locals still active at the
+	// target (A = 0 would detach every captured variable of the function)
+	context.Code.AddABC(OP_CLOSE, context.BlockLocalVarsCount(), 0, 0, sline(stmt))
 	context.Code.AddASbx(OP_JMP, 0, labelNoJump, sline(stmt))
 	label := newLabelDesc(-1, stmt.Label, context.Code.LastPC(), sline(stmt), context.BlockLocalVarsCount())
 	context.AddUnresolvedGoto(label)
